@@ -557,6 +557,7 @@ fn run(scn: &Scn, ctx: &mut Ctx) -> Result<(), Violation> {
     // expand Line events
     let mut flat: Vec<(usize, Ev)> = vec![];
     let mut submitted = 0u32;
+    let _ = &mut submitted;
     // reference for plain typing: the text of the input field while only printable characters (and
     // Enter) have been typed since the field was last empty; None = not tracked (editing keys,
     // completion, history, a notification swallowing the key, control characters)
@@ -705,7 +706,6 @@ fn run(scn: &Scn, ctx: &mut Ctx) -> Result<(), Violation> {
             // (a frame that ends the session does not draw)
             s.cursor_check(i)?;
         }
-        let after = &s.tui.machine().machine;
         // what should have happened?
         let mut twin = before.clone();
         let mut expect_quit = false;
